@@ -44,6 +44,8 @@ def natLe (a b : Nat Ã— Nat Ã— Nat) : Bool :=
 
 def judgeC01Plain (ops impl : List String) : Bool Ã— String :=
   match parse ops, parseOut impl with
+  | some (_, rs), none =>
+    if impl == ["panic"] then panicVerdict rs else (false, s!"unparsable implementation output: {impl.take 2}")
   | some (cfg, rs), some threads =>
     let acc := accepted rs
     let outAll := threads.flatMap (fun t => t.samples.map (fun s => (baseOf t.pid, baseOf t.tid, s.1, s.2)))
@@ -62,7 +64,6 @@ def judgeC01Plain (ops impl : List String) : Bool Ã— String :=
         let extra := got.filter (fun g => !want.contains g)
         (false, s!"samples differ: accepted {want.length} output {got.length}; missing (pid,tid,t) {missing.take 3}; unexpected {extra.take 3}")
   | none, _ => (false, "bad-op")
-  | _, none => (false, s!"unparsable implementation output: {impl.take 2}")
 
 /-! ### context-switch families (C12 `conv` mode, C01) -/
 
@@ -186,7 +187,8 @@ def judgeC17 (ops impl : List String) : Bool Ã— String :=
   match parse ops with
   | none => (false, "bad-op")
   | some (cfg, rs) =>
-    if impl == ["panic"] || impl.any (Â·.startsWith "err:") then (false, s!"conversion failed: {impl.take 1}") else
+    if impl == ["panic"] then panicVerdict rs else
+    if impl.any (Â·.startsWith "err:") then (false, s!"conversion failed: {impl.take 1}") else
     -- the statement is about default options and grammar-respecting histories
     if cfg.reuse then (true, "not-applicable: --reuse-threads") else
     if !Life.grammarOk cfg.ref rs then (true, "not-applicable: FORK onto a bound child / EXEC on a non-main thread") else
@@ -263,8 +265,9 @@ def judgeStacks (check : List Frame â†’ List Frame â†’ Bool) (tag : List Frame â
     match go exp with
     | (true, _) => goCpu (expectedCpuStacks cfg rs)
     | r => r
+  | some (_, rs), none =>
+    if impl == ["panic"] then panicVerdict rs else (false, s!"unparsable implementation output: {impl.take 2}")
   | none, _ => (false, "bad-op")
-  | _, none => (false, s!"unparsable implementation output: {impl.take 2}")
 
 /-- C02: frames equal the declarative attribution (stacks below the depth limit), root first -/
 def judgeC02 (ops impl : List String) : Bool Ã— String :=
